@@ -224,11 +224,14 @@ def suite_tuples(exe, tier, seed):
 FX_MAIN = """pragma circom 2.0.0;
 include "inc.circom";
 template Num2Bits(n) { signal input in; signal output out[n]; var lc = 0; for (var i = 0; i < n; i++) { out[i] <-- (in >> i) & 1; out[i] * (out[i] - 1) === 0; lc += out[i] * (1 << i); } lc === in; }
+template Pair() { signal input a; signal output u; signal output v; u <== a; v <== a + 1; }
 template T() {
   signal input in; signal input b; signal output out;
   var unused = 3;
   component n2b = Num2Bits(254);
   n2b.in <== in;
+  component pr = Pair();
+  pr.a <== in;
   out <-- in / b;
   if (1 == 1) { unused = 4; }
 }
@@ -281,7 +284,7 @@ def suite_output(exe, tier, seed):
     try:
         open(os.path.join(d, "main.circom"), "w").write(FX_MAIN)
         open(os.path.join(d, "inc.circom"), "w").write(FX_INC)
-        files = ["main.circom", "missing.circom"]
+        files = ["main.circom", "missing.circom", "missing_too.circom"]
         rc, out, err = run_cli(exe, ["-v", "-l", "info"] + files, d)
         base, _ = parse_displayed(out)
         ids = sorted({i for (_, i) in base})
@@ -379,7 +382,7 @@ def suite_output(exe, tier, seed):
     finally:
         shutil.rmtree(d, ignore_errors=True)
     return {"unit": "e2e-output", "evaluations": evals, "distinct_nontrivial": nontrivial, "exhaustive": tier == "thorough",
-            "rule": "the real CLI on a fixture project (a named file with 8 finding kinds across 3 levels, an included-only file with findings of its own, a named file that does not exist) for each (--level, --allow set) with --sarif-file and -v; checked: exit 0 iff nothing displayed, summary = number displayed, displayed = unfiltered findings filtered by level and allow list, SARIF results = displayed (ids, levels, and line/column of the primary location), SARIF rule list = one descriptor per id that occurs; findings produced while a definition's CFG is generated (shadowing warning, parameter collision) are displayed exactly once whichever definition is analysed first; non-trivial = a filter is active",
+            "rule": "the real CLI on a fixture project (a named file with 9 finding kinds across 3 levels — two of them the same rule at the same place —, an included-only file with findings of its own, two named files that do not exist) for each (--level, --allow set) with --sarif-file and -v; checked: exit 0 iff nothing displayed, summary = number displayed, displayed = unfiltered findings filtered by level and allow list, SARIF results = displayed (ids, levels, and line/column of the primary location), SARIF rule list = one descriptor per id that occurs; findings produced while a definition's CFG is generated (shadowing warning, parameter collision) are displayed exactly once whichever definition is analysed first; non-trivial = a filter is active",
             "bound": "3 levels x " + ("all singletons and pairs of the occurring ids plus 5 fixed subsets" if tier == "thorough" else "5 allow subsets (empty, one id, two ids, half, all)"),
             "samples": samples, "violations": viol}
 
@@ -430,6 +433,10 @@ def value_cases():
         ("array:other-element-overwritten", "  var a[2];\n  a[0] = 1;\n  a[1] = 1;\n  a[1] = 2;\n  var v = a[0];" + tail, "true"),
         ("array:inline-then-overwritten", "  var a[2] = [1, 1];\n  a[n] = 2;\n  var v = a[0];" + tail, None),
         ("array:inline-distinct", "  var a[2] = [1, 2];\n  var v = a[n];" + tail, None),
+        ("array:one-element-written", "  var a[2];\n  a[0] = 1;\n  var v = a[1];" + tail, "false"),
+        ("array:inline-distinct-then-one-written", "  var a[2] = [3, 2];\n  a[0] = 1;\n  var v = a[1];" + tail, "false"),
+        ("array:written-in-loop-only", "  var a[4];\n  for (var i = 0; i < n; i++) { a[i] = 1; }\n  var v = a[3];" + tail, None),
+        ("array:two-dimensional", "  var a[2][2];\n  a[0][0] = 1;\n  var v = a[1][1];" + tail, "false"),
         ("ternary:unknown-condition-distinct-cases", "  var v = n == 0 ? 1 : 2;" + tail, None),
         ("ternary:unknown-condition-same-cases", "  var v = n == 0 ? 1 : 1;" + tail, "true"),
         ("ternary:unknown-condition-one-unknown-case", "  var v = n == 0 ? 1 : in;" + tail, None),
@@ -479,7 +486,7 @@ def suite_values(exe, tier, seed):
         shutil.rmtree(d, ignore_errors=True)
     return {"unit": "e2e-values", "evaluations": evals, "distinct_nontrivial": nontrivial, "exhaustive": True,
             "rule": "the real CLI on a template in which a carrier (signal or variable) is assigned a constant or an unknown value on each of two paths and then compared with a constant: the tool must not abort, and may report `This condition is always true/false` only when every path assigns the matching constant",
-            "bound": "4 carriers (signal in both branches, variable in both branches, signal in one branch, variable updated in a loop) x {1, 2, unknown}^2 assignments; 15 shapes with arrays (distinct / equal elements, elements overwritten in a branch, in a loop, at an unknown index), ternaries (unknown or constant condition, equal / distinct / unknown cases, nested) and calls",
+            "bound": "4 carriers (signal in both branches, variable in both branches, signal in one branch, variable updated in a loop) x {1, 2, unknown}^2 assignments; 19 shapes with arrays (distinct / equal elements, a single element written, elements overwritten in a branch, in a loop, at an unknown index), ternaries (unknown or constant condition, equal / distinct / unknown cases, nested) and calls",
             "samples": samples, "violations": viol}
 
 
@@ -718,6 +725,16 @@ def suite_includes(exe, tier, seed):
                   dict(reachable=["a.circom", "b.circom"], analyzed={"A", "B"}, findings_in=["a.circom", "b.circom"], findings_min=1)))
     cases.append(("named-twice-and-included", {"a.circom": A(["b.circom"]) + tpl("A") + main_a, "b.circom": PRAGMA + tpl("B", True)}, None, ["b.circom", "a.circom", "./b.circom"],
                   dict(reachable=["a.circom", "b.circom"], analyzed={"A", "B"}, findings_in=["a.circom", "b.circom"], findings_min=1)))
+    cases.append(("library-file-single-component", {"a.circom": PRAGMA + 'include "gadgets/l.circom";\n' + tpl("A") + main_a, "lib/l.circom": PRAGMA + tpl("L")}, None, ["-L", "lib/l.circom", "a.circom"],
+                  dict(reachable=["a.circom"], not_opened=["lib/l.circom"], must_error=("gadgets/l.circom", "a.circom:2"))))
+    cases.append(("library-file-not-for-dot-paths", {"a.circom": PRAGMA + 'include "./l.circom";\n' + tpl("A") + main_a, "lib/l.circom": PRAGMA + tpl("L")}, None, ["-L", "lib/l.circom", "a.circom"],
+                  dict(reachable=["a.circom"], must_error=("./l.circom", "a.circom:2"))))
+    cases.append(("library-file-by-name", {"a.circom": PRAGMA + 'include "l.circom";\n' + tpl("A") + main_a, "lib/l.circom": PRAGMA + tpl("L", True)}, None, ["-L", "lib/l.circom", "a.circom"],
+                  dict(reachable=["a.circom", "lib/l.circom"], analyzed={"A"}, findings_in=["a.circom"])))
+    cases.append(("library-directory-subpath", {"a.circom": PRAGMA + 'include "sub/l.circom";\n' + tpl("A") + main_a, "lib/sub/l.circom": PRAGMA + tpl("L", True)}, None, ["-L", "lib", "a.circom"],
+                  dict(reachable=["a.circom", "lib/sub/l.circom"], analyzed={"A"}, findings_in=["a.circom"])))
+    cases.append(("unresolved-in-included-file-named-too", {"a.circom": A(["b.circom"]) + tpl("A") + main_a, "b.circom": PRAGMA + 'include "nowhere.circom";\n' + tpl("B")}, None, ["a.circom", "b.circom"],
+                  dict(reachable=["a.circom", "b.circom"], must_error=("nowhere.circom", "b.circom:2"))))
     cases.append(("unresolved", {"a.circom": PRAGMA + "\n" + 'include "nowhere.circom";\n' + tpl("A") + main_a}, None, ["a.circom"],
                   dict(reachable=["a.circom"], must_error=("nowhere.circom", "a.circom:3"))))
     for (name, files, links, args, exp) in cases:
@@ -767,7 +784,7 @@ def suite_includes(exe, tier, seed):
     return {"unit": "e2e-includes", "evaluations": evals, "distinct_nontrivial": nontrivial, "exhaustive": False,
             "rule": "the real CLI under strace on small multi-file projects: it terminates with exit 0/1; every reachable file is opened exactly once whatever paths or spellings lead to it; a shadowed file is not opened; only templates of the files named on the command line are analyzed and only those files carry findings; an unresolvable include is an error located at the include statement",
             "strace_available": strace_seen,
-            "bound": "15 include graphs: chain, diamond, cycle, self-include, ./ and ../ spellings, resolution relative to the including file, -L library, relative-before-library, a library file that is also named, a library file reached by two routes, symlink, both files named (either order), a file named twice and included, unresolved include",
+            "bound": "20 include graphs (5 more on library files answering only single-component includes, library sub-paths, an unresolvable include in a file that is both included and named): chain, diamond, cycle, self-include, ./ and ../ spellings, resolution relative to the including file, -L library, relative-before-library, a library file that is also named, a library file reached by two routes, symlink, both files named (either order), a file named twice and included, unresolved include",
             "samples": samples, "violations": viol}
 
 
@@ -1041,13 +1058,19 @@ template T(n) {
   component nb = Num2Bits(300);
   nb.in <== in;
   var z = ~in;
+  signal output q2;
+  q2 <-- in / ((d + 1) * 2);
+  var t = 0;
+  if ((3 + 1) * 2 > 4) { t = 1; }
+  if (2 < 2 * (3 + 1)) { t = 2; }
 }
 component main = T(3);
 """
 # (report code, the source text of the construct the finding is about)
 POSITIONS_EXPECTED = [("CS0001", "var x = 2"), ("CS0007", "a, unused"), ("CS0008", "x = x + 1"), ("CS0006", "var dead = 5"), ("CS0009", "3 > 2"),
                       ("CS0013", "out <-- in * in"), ("CS0005", "q <-- in / d"), ("CS0015", "d"), ("CS0017", "signal tmp"), ("CS0010", "Num2Bits(300)"),
-                      ("CA01", "signal input d"), ("CS0007", "n"), ("CS0006", "var z = ~in")]
+                      ("CA01", "signal input d"), ("CS0007", "n"), ("CS0006", "var z = ~in"),
+                      ("CS0015", "(d + 1) * 2"), ("CS0009", "(3 + 1) * 2 > 4"), ("CS0009", "2 < 2 * (3 + 1)")]
 
 
 def suite_positions(exe, tier, seed):
@@ -1139,7 +1162,7 @@ def suite_positions(exe, tier, seed):
         shutil.rmtree(d, ignore_errors=True)
     return {"unit": "e2e-positions", "evaluations": evals, "distinct_nontrivial": nontrivial, "exhaustive": False,
             "rule": "the real CLI on a template whose `out <-- in * in;` statement is preceded by text that shifts byte offsets (multi-byte characters in comments and strings, tabs, CRLF, long lines, a byte order mark): the label of the finding about that statement underlines exactly the statement, on its line, in the terminal output and in SARIF; a file the tool cannot tokenise must be rejected with a parse error rather than analysed with shifted positions; on a fixture with findings of 11 kinds (shadowing, unused parameter, dead assignment, unused variable, constant condition, both `<--` findings, divisor, intermediate signal, Num2Bits instantiation, unconstrained signal) the label of each finding underlines exactly the source text of the construct it is about",
-            "bound": "12 placements of one statement; one fixture with 13 findings of 11 kinds in 4 renderings (plain, multi-byte comment first, CRLF, tabs)", "samples": samples, "violations": viol}
+            "bound": "12 placements of one statement; one fixture with 16 findings of 11 kinds (three of them infix expressions that begin or end with a parenthesised operand) in 4 renderings (plain, multi-byte comment first, CRLF, tabs)", "samples": samples, "violations": viol}
 
 
 def sigassign_program(rng, n_stmts):
